@@ -20,6 +20,7 @@ META = {
             '(text files are read with LINE INPUT#; BLOAD drops a final ^Z); files are read in tape order after the reopen (a search that '
             'runs off the end of the tape is not part of the statement); WAV images use the writer\'s own 22050 Hz 8-bit format.',
 }
+META['text'] += ' The reference read carries the type filter of the reading statement and the nameless form (next file of a wanted type); mixed-kind tapes are read back with nameless OPEN / LOAD / BLOAD.'
 
 MCLENS = [0, 1, 253, 254, 255, 256, 509, 510, 511]
 # file types the reading statement of each kind accepts (OPEN FOR INPUT / LOAD / BLOAD)
